@@ -16,71 +16,10 @@
 (* definition and prints every case with the expected verdict of every     *)
 (* probe; the harness builds the real tree and asks the real IgnoreFilter. *)
 (***************************************************************************)
-EXTENDS Integers, Sequences, FiniteSets, TLC, Json, Randomization
+EXTENDS Integers, Sequences, FiniteSets, TLC, Json, Randomization, Glob
 
 CONSTANTS Family,   \* which slice of the universe this run enumerates
           Sample    \* size of the random slice (Family = "sample")
-
----------------------------------------------------------------------------
-\* Patterns
-
-Lit(v)  == [k |-> "lit", v |-> v]
-Ext(v)  == [k |-> "ext", v |-> v]
-DStar   == [k |-> "dstar", v |-> ""]
-
-Pat(text, neg, dirOnly, anchored, segs) ==
-    [text |-> text, neg |-> neg, dirOnly |-> dirOnly, anchored |-> anchored, segs |-> segs]
-
-Pats == {
-    Pat("foo",        FALSE, FALSE, FALSE, <<Lit("foo")>>),
-    Pat("!foo",       TRUE,  FALSE, FALSE, <<Lit("foo")>>),
-    Pat("*.o",        FALSE, FALSE, FALSE, <<Ext(".o")>>),
-    Pat("!*.o",       TRUE,  FALSE, FALSE, <<Ext(".o")>>),
-    Pat("sub/",       FALSE, TRUE,  FALSE, <<Lit("sub")>>),
-    Pat("!sub/",      TRUE,  TRUE,  FALSE, <<Lit("sub")>>),
-    Pat("/foo",       FALSE, FALSE, TRUE,  <<Lit("foo")>>),
-    Pat("test/foo",   FALSE, FALSE, TRUE,  <<Lit("test"), Lit("foo")>>),
-    Pat("!tests/foo", TRUE,  FALSE, TRUE,  <<Lit("tests"), Lit("foo")>>),
-    Pat("**/foo",     FALSE, FALSE, TRUE,  <<DStar, Lit("foo")>>),
-    Pat("sub/**",     FALSE, FALSE, TRUE,  <<Lit("sub"), DStar>>),
-    Pat("tests/",     FALSE, TRUE,  FALSE, <<Lit("tests")>>),
-    Pat("test",       FALSE, FALSE, FALSE, <<Lit("test")>>),
-    Pat("sub/x.o",    FALSE, FALSE, TRUE,  <<Lit("sub"), Lit("x.o")>>)
-}
-
-HasExt(name, e) == e = ".o" /\ name = "x.o"
-
-NameMatch(seg, name) ==
-    IF seg.k = "lit" THEN seg.v = name ELSE IF seg.k = "ext" THEN HasExt(name, seg.v) ELSE FALSE
-
-RECURSIVE MS(_, _)
-MS(segs, p) ==
-    IF segs = <<>> THEN p = <<>>
-    ELSE IF Head(segs).k = "dstar"
-         THEN IF Len(segs) = 1 THEN Len(p) >= 1      \* trailing /**: everything inside
-              ELSE \E i \in 0..Len(p) : MS(Tail(segs), SubSeq(p, i + 1, Len(p)))
-         ELSE p # <<>> /\ NameMatch(Head(segs), Head(p)) /\ MS(Tail(segs), Tail(p))
-
-\* does the pattern match the path `rel` (relative to the ignore file's directory)?
-PatMatches(pat, rel, isDir) ==
-    /\ rel # <<>>
-    /\ pat.dirOnly => isDir
-    /\ IF pat.anchored THEN MS(pat.segs, rel) ELSE MS(<<DStar>> \o pat.segs, rel)
-
-\* last matching line decides
-RECURSIVE LastMatch(_, _, _, _)
-LastMatch(lines, i, rel, isDir) ==
-    IF i = 0 THEN "none"
-    ELSE IF PatMatches(lines[i], rel, isDir)
-         THEN IF lines[i].neg THEN "white" ELSE "ignore"
-         ELSE LastMatch(lines, i - 1, rel, isDir)
-
-\* the path itself, then each of its parents (as directories), inside one directory's patterns
-RECURSIVE PathOrParents(_, _, _, _)
-PathOrParents(lines, rel, k, isDir) ==
-    IF k = 0 THEN "none"
-    ELSE LET v == LastMatch(lines, Len(lines), SubSeq(rel, 1, k), IF k = Len(rel) THEN isDir ELSE TRUE)
-         IN  IF v # "none" THEN v ELSE PathOrParents(lines, rel, k - 1, isDir)
 
 ---------------------------------------------------------------------------
 \* The tree and the probes (paths relative to the origin; "OUT" marks a path outside it)
